@@ -7,6 +7,16 @@ from pathlib import Path
 VERIF = Path(__file__).resolve().parent.parent
 
 CHECKS = {
+    "C01": dict(
+        technique="stateful (rule-based machine) property-based testing with a reference interpreter; Hypothesis @given over boundary-biased states for built-in envs",
+        text="Hypothesis rule-based machine (reset/step) over seeded pools of wrapper stacks (depth 0-4, all wrapper kinds) on generated "
+        "finite MDPs, in lock-step with a NumPy reference of the stack; classic-control envs bare and under TimeLimit from "
+        "boundary-biased start states (goal regions, thresholds, walls); MuJoCo envs along random/corner/held action histories in a "
+        "process pool. Every step is judged against the environment's own transition/reward/terminal/truncate/observation and a "
+        "freshness predicate for post-done states.",
+        design="DESIGN.md §4 C01",
+        note="Trusted: vlib/wrapref.py StackRef + vlib/mdp.py Interp; components are key-independent (asserted per case). 8 mutants of base_env.step/reset/TimeLimit all caught.",
+    ),
     "C03": dict(
         technique="property-based testing (Hypothesis) + exhaustive enumeration of done patterns, float64 reference oracle, metamorphic cut",
         text="Generated rollouts (all 2^T done patterns for T<=9 quick / T<=12 thorough, Hypothesis-drawn larger ones) are fed to "
